@@ -3,7 +3,7 @@ from trkgen import *
 
 ID = "C06"
 SCHEDULE_DEPENDENT = True     # a failure that does not recur when the case is re-run is still reported (engine: report())
-THEOREM_MODULES = ["SimVerif.Props.C06", "SimVerif.Props.C06b", "SimVerif.Props.Hist", "SimVerif.Tie.BatchReq", "SimVerif.Tie.Apply"]
+THEOREM_MODULES = ["SimVerif.Props.C06", "SimVerif.Props.C06b", "SimVerif.Props.Hist", "SimVerif.Tie.BatchReq", "SimVerif.Tie.Apply", "SimVerif.Tie.Shares"]
 THEOREM_MODULE = "SimVerif.Props.C06"
 NONTRIVIAL_FLAGS = {"pipelined-batches", "pipeline-overlap", "multi-scene-batch", "trace-validated", "slow-consumer-probe", "compared-nonempty", "competition", "shards-interleaved"}
 RULE = ("batch sequences over 1..4 scenes on the real batch tracker (distance shards 1..4, voting workers 1..4, seeded delays of the store workers, a consumer that retrieves immediately or only after a delay), "
@@ -81,7 +81,7 @@ def shape_key(case, results):
             return "trk-" + t[1] + ("-trace" if "TRACE-INVALID" in r.detail else "")
     return "none"
 
-SOURCE_TIE = "Source-level tie by proof (Tie/BatchReq, Tie/Apply): PredictionBatchRequest::add as regenerated from the source groups the detections of a batch per scene in submission order with one entry per scene (batch_size counts them); the apply loop in the voting threads of both batch trackers is a left-to-right fold returning one record per detection (the same theorem as for the simple trackers, an id being drawn for every candidate)."
+SOURCE_TIE = "Source-level tie by proof (Tie/BatchReq, Tie/Apply): PredictionBatchRequest::add as regenerated from the source groups the detections of a batch per scene in submission order with one entry per scene (batch_size counts them); the apply loop in the voting threads of both batch trackers is a left-to-right fold returning one record per detection (the same theorem as for the simple trackers, an id being drawn for every candidate); the own-area shares a scene of a batch gets are the ones the simple tracker computes for the same detections (Tie/Shares)."
 LEVEL_TEXT = LEVEL_TEXT + " " + SOURCE_TIE
 TRUSTED_BASE = TRUSTED_BASE + ["translator/kernels.py + rustexpr.py (reader of the Rust subset, per-function tables) for the functions named in SOURCE_TIE; generated definitions are proof obligations (Tie modules) on every run"]
 TECHNIQUE = TECHNIQUE + "; model regenerated from the source by a translator for the functions of SOURCE_TIE, tied by proof"
